@@ -31,7 +31,9 @@ _m("C01",
    "only non-error exit is `bytes read == 0`; (R3) Read/AsyncRead impls of types owning an IntegrityChecker cannot return "
    "success without feeding the checker the caller's buffer bounded by the inner read (only bypass: zero-length read); "
    "(R4) check() is the checker's verdict and reader construction ties file and checker to one integrity parameter; "
-   "(R5) keyed wrappers pass the by-address layer the integrity found for their own key in their own cache.",
+   "(R5) keyed wrappers pass the by-address layer the integrity found for their own key in their own cache; (R6) every "
+   "materialising primitive (copy, reflink, hard link) takes its source at exactly content_path(<cache>, <integrity>) of its own "
+   "parameters — the path the verification pass opened — and not at something derived from it (read_link / canonicalize of it).",
    "That ssri's digest comparison is right; concurrent modification between the verify pass and the copy; byte-level "
    "outcomes for particular damage patterns (the rule is independent of them); hangs.",
    "MIR must-pass-through (gate-cut reachability) + identity value-flow + parametric call summaries",
@@ -116,7 +118,9 @@ _m("C15",
    "global locations (env::temp_dir, NamedTempFile::new, tempfile(), current_dir) are forbidden. (b) The key reaches a path "
    "only through a cryptographic digest call (the HASH_KEY role or a digest computed in place) fed the unchanged argument; content paths depend only on (cache, integrity); every "
    "bucket is selected by the entry point's string key travelling by identity flow (no trim/case-fold/normalise); no other "
-   "effect path contains a string parameter. (c) The call-graph closure of the read-only API (read*, Reader/SyncReader::*, "
+   "effect path contains a string parameter. (a2) The two address functions (content path, bucket path), whose results clause (a) "
+   "takes to lie under their first argument, really return that argument joined with further segments — no detour through "
+   "text (`display()`, `to_string_lossy()`: lossy for directory names that are not UTF-8), no other root. (c) The call-graph closure of the read-only API (read*, Reader/SyncReader::*, "
    "metadata*, exists*, list_sync, index::find*/ls) contains no mutating effect.",
    "Symlink traversal below the cache root at run time; the system-call-level observation itself; behaviour for particular hostile "
    "key strings (the rule shows keys are never interpreted, for all strings at once).",
@@ -313,7 +317,9 @@ _m("C02",
    "sink agreement: in every writer body, each IntegrityOpts::input is fed exactly what the sink accepted — for a write()-like "
    "sink the slice X[..n] with n the Ok payload of that write of X; for an all-or-error sink (mapped write helper, proved to "
    "return Ok(buf.len()) only after copying the whole buf) the whole X and only on the sink's Ok edge — and no sink write goes "
-   "undigested. (b) The async staging buffer equals the caller's chunk when the blocking closure is created (set_len(buf.len()) "
+   "undigested; an all-or-error loop (write_all, write_fmt) over the staging file *or over a crate type whose own write() writes "
+   "the staging file* (a tee, a counting wrapper) is not resumable — a failure part-way leaves accepted bytes behind although "
+   "the caller is told nothing was taken — and is reported. (b) The async staging buffer equals the caller's chunk when the blocking closure is created (set_len(buf.len()) "
    "then a full copy_from_slice(buf), both dominating the spawn, no other mutation). (c) The keyed writers' byte counters do "
    "`counter += amount reported by the inner writer` and return that amount, passing the caller's buffer unchanged, and no other "
    "method of their Write / AsyncWrite impl (write_vectored, poll_write_vectored, write_all ...) hands data to the inner writer "
@@ -339,7 +345,9 @@ _m("C16",
    "the publication's digest or the insert's result, and the insert returns the integrity it indexed. (d) Each entry is "
    "verified under its own integrity: readers' checkers are built from the requested integrity and whole-buffer reads check "
    "against it (reused C01 R2/R4b). (e) Re-publication over an existing address goes through the same atomic rename, never an "
-   "in-place write (reused C03 a).",
+   "in-place write (reused C03 a). (e'') With link_to, a link is published with symlink(2) only — which fails on an occupied "
+   "address — never by a rename, copy or write onto the address (reused C19 a): storing bytes the cache already holds through a "
+   "link_to entry point leaves the stored copy alone.",
    "That ssri's digests equal the standard ones (needs an independent implementation and execution); the number of files after a "
    "history; byte-identity of a stored copy after re-publication.",
    "identity / may-depend value flow for algorithm and digest-input provenance; clauses (d),(e) reuse the C01/C03 analyses",
